@@ -635,4 +635,15 @@ def adaptOptions (srvLines : List (List Bytes)) (strictLines : Nat) (strictArg :
            rpRanges := (rpLines.map expandRanges).flatten
            clientIPShorthand := clientIPShorthandOf }
 
+/-- serveroptions.go `applyServerOptions`: a `servers [<listener address>] { … }` block applies to a server
+    iff it names no address or one the server listens on
+    (`s.ListenerAddress == "" || slices.Contains(server.Listen, s.ListenerAddress)`); a server no block
+    applies to keeps the zero values -/
+def optionsFor (target : Option Bytes) (listen : List Bytes) (a : Adapted) : Adapted :=
+  match target with
+  | none => a
+  | some addr =>
+    if listen.contains addr then a
+    else { a with srvRanges := none, strict := false, clientIPHeaders := none }
+
 end CaddyModel.C10
